@@ -144,7 +144,10 @@ class ChainFile:
             if os.path.exists(file):  os.remove(file)
             return
 
-        fd = open(file, "w")
+        # write a temporary file and rename it into place, so that a reader (or a crash) never sees
+        # a truncated record
+        tmpFile = "%s.tmp%d" % (file, os.getpid())
+        fd = open(tmpFile, "w")
 
         # Should really be "FILE = chain", but eups checks for version.  I've changed it to allow
         # chain, but let's not break backward compatibility with old eups versions
@@ -181,6 +184,7 @@ CHAIN = %s
             print("#End:", file=fd)
 
         fd.close()
+        os.rename(tmpFile, file)
 
     REGEX_KEYVAL = re.compile(r"^(\w+)\s*=\s*(.*)", flags = re.IGNORECASE)
     REGEX_GROUPEND = re.compile(r"^(End|Group)\s*:")
